@@ -27,6 +27,8 @@ def run(ctx):
         common.require_tlc_ok(ctx, gp, "GenProg")
         gd = common.tlc(ctx, "GenData", cfg="GenData", workers=8, timeout=3000)
         common.require_tlc_ok(ctx, gd, "GenData")
+        gc = common.tlc(ctx, "GenCtl", cfg="GenCtl_quick" if ctx.quick else "GenCtl_full", workers=8, timeout=6000)
+        common.require_tlc_ok(ctx, gc, "GenCtl")
     erows, prows = ge["cases"]["CASE"], gp["cases"]["CASE"]
 
     def pick(rows, n):
@@ -34,7 +36,7 @@ def run(ctx):
             return list(rows)
         buckets = {}
         for r in rows:
-            key = tuple(sorted(t for t in r["feats"] if t.startswith(("bin:", "binshape:", "bin-same", "un:", "call:", "index:", "slice", "stmt:", "match:", "pat:", "arm:", "data:", "subject:"))))
+            key = tuple(sorted(t for t in r["feats"] if t.startswith(("bin:", "binshape:", "bin-same", "un:", "call:", "index:", "slice", "stmt:", "match:", "pat:", "arm:", "data:", "subject:", "ctl:", "ctx:", "jump", "matchform:"))))
             buckets.setdefault(key, []).append(r)
         keys = sorted(buckets)
         rnd.shuffle(keys)
@@ -53,10 +55,12 @@ def run(ctx):
     cases += [pipeline.prog_case(r, k) for k, r in enumerate(pick(prows, n_prog))]
     drows = gd["cases"]["CASE"]
     cases += [pipeline.data_case(r, k) for k, r in enumerate(pick(drows, 110 if ctx.quick else 1396))]
+    cases += [pipeline.ctl_case(r, k) for k, r in enumerate(pick(gc["cases"]["CASE"], 120 if ctx.quick else 3000))]
     with ctx.timed("self_check"):
         rej = pipeline.self_check_exprs(ctx, [c for c in cases if c["kind"] == "expr"])
         rej.update(pipeline.self_check_progs(ctx, [c for c in cases if c["kind"] == "prog"]))
         rej.update(pipeline.self_check_data(ctx, [c for c in cases if c["kind"] == "data"]))
+        pipeline.self_check_ctl(ctx, [c for c in cases if c["kind"] == "ctl"])
     cases = [c for c in cases if c["id"] not in rej]
     ev = pipeline.evaluate(ctx, cases)
     stats = {}
@@ -69,7 +73,7 @@ def run(ctx):
         if st == "check":
             continue            # not accepted by the real checker: outside C02's quantifier
         n_accepted += 1
-        distinct.add(" ; ".join(c["body"][-4:]))
+        distinct.add(c["decls"] if c["kind"] == "ctl" else " ; ".join(c["body"][-4:]))
         if st in ("emit", "build"):
             ctx.fail(e["symptom"], {"src": c["body"], "diagnostic": e["detail"]},
                      "accepted by the checker but the generated project does not build", tags=c["tags"])
